@@ -10,6 +10,7 @@ import (
 	"os"
 	"sort"
 	"strings"
+	"sync"
 
 	"0chain.net/core/encryption"
 	"github.com/0chain/common/core/logging"
@@ -47,11 +48,14 @@ func main() {
 
 // detRand is a deterministic byte stream (SHA-256 in counter mode) used as the herumi RNG.
 type detRand struct {
+	mu  sync.Mutex
 	ctr uint64
 	buf []byte
 }
 
 func (d *detRand) Read(p []byte) (int, error) {
+	d.mu.Lock()
+	defer d.mu.Unlock()
 	for i := range p {
 		if len(d.buf) == 0 {
 			h := sha256.Sum256([]byte(fmt.Sprintf("verif-crypto-rand-%d", d.ctr)))
